@@ -137,10 +137,13 @@ Qed.
 Lemma le_int32_range l v : bytes_ok l = true -> le_int32 l = Some v -> - 2 ^ 31 <= v < 2 ^ 31.
 Proof.
   intros Hb H. unfold le_int32 in H.
-  destruct l as [|a [|b [|c [|d [|]]]]]; try discriminate. inversion H; subst; clear H.
-  pose proof (le_unsigned_range _ Hb) as R. change (256 ^ Z.of_nat (length [a; b; c; d])) with (2 ^ 32) in R.
-  unfold to_signed. change (2 ^ (32 - 1)) with (2 ^ 31).
-  destruct (Z.ltb_spec (le_unsigned [a; b; c; d]) (2 ^ 31)); lia.
+  destruct l as [|a [|b [|c [|d [|]]]]]; try discriminate.
+  pose proof (le_unsigned_range _ Hb) as R.
+  change (256 ^ Z.of_nat (length [a; b; c; d])) with 4294967296 in R.
+  remember (le_unsigned [a; b; c; d]) as u. clear Hequ.
+  injection H as <-. unfold to_signed.
+  change (2 ^ (32 - 1)) with 2147483648. change (2 ^ 32) with 4294967296. change (2 ^ 31) with 2147483648.
+  destruct (Z.ltb_spec u 2147483648); lia.
 Qed.
 
 (* ---- binary32 ---- *)
